@@ -2,44 +2,53 @@ import HeimdallModel.Lemmas.Jwt
 /-!
 # C05 — JWT authentication accepts exactly the correctly signed, asserted tokens
 
-Theorems about the model of the JWT authenticator (`Model/Jwt.lean`: `Execute`, `verifyToken`, `getKey`,
-`verifyTokenWithoutKID`, `verifyTokenWithKey`, `oauth2.Expectation`, `oauth2.Claims`, the scope matchers and
-`SubjectInfo.CreateSubject`; tied to the Go code by the correspondence check of the `jwt` family, which runs the very
-function `Jwt.authenticate` these theorems are about, and by the regenerated algorithm lists of `Gen/JwtAlgs.lean`).
+Theorems about the model of the JWT authenticator (`Model/Jwt.lean`: `Execute`, `verifyToken`, `getKey` with its
+JWK cache, `verifyTokenWithoutKID`, `verifyTokenWithKey`, `oauth2.Expectation`, `oauth2.Claims`, the scope matchers
+and `SubjectInfo.CreateSubject`; tied to the Go code by the correspondence check of the `jwt` family, which runs the
+very functions `Jwt.authenticate` / `Jwt.step` these theorems are about, and by the algorithm lists of
+`Gen/JwtAlgs.lean`, regenerated from the linked code on every run).
 
-All statements hold for every configuration (either endpoint kind, any assertions, with or without rule-level
-override), every answer of the endpoints, every key set (any length, with / without / with duplicate `kid`s, with
-certificates), every token (any header, any JSON payload of any depth, any signature oracle) and every instant.
-The vocabulary (`Entitled`, `Accepts`, `SubjectOf`, `Covers`, `Satisfied`) is defined in `Spec/Jwt.lean`.
+The specification (`Spec/Jwt.lean`) is written over the **raw payload** — the members of the JSON object — with its
+own readers (`Spec.issuer`, `Spec.audiences`, `Spec.granted`, `Spec.date`, `Spec.wellTyped`), its own rule for the
+assertion in force (`Spec.inForce`) and its own scope relations; nothing of the model's decoder occurs in a statement.
 
-Signature verification itself is the oracle `Token.sigOk` (go-jose / Go crypto): that a modified byte of a signed
+All statements hold for every configuration (either endpoint kind, templated or not, any assertions, with or without
+rule-level override, cache on or off), every answer of the endpoints, every key set (any length, with / without / with
+duplicate `kid`s, with certificates), every token (any header, any JSON payload of any depth and with numbers of any
+magnitude, any signature oracle), every instant and every history of earlier requests.
+
+Signature verification itself is the oracle `Token.sigOk` (go-jose / Go crypto): that a modified octet of a signed
 token makes `sigOk` false for every key is the contract of the signature schemes, not a theorem here — the property
-is *partial* in exactly this respect, and the correspondence check evaluates the oracle with an independent verifier.
+is *partial* in exactly this respect; the correspondence check evaluates the oracle with an independent verifier.
+Known finding `C05-attrs-float64`: numbers in subject attributes are delivered as IEEE doubles; the full statement
+"attributes = payload object" is proved for payloads whose integral numbers fit (`c05_attrs_exact_partial`) and
+refuted at a witness (`c05_attrs_rounded_witness`).
 -/
 namespace Heimdall.Props.C05
 open Heimdall.Jwt
 
 /-! ## Obligations on the regenerated algorithm lists -/
 
+/-- ASCII lower-casing (kernel-reducible) -/
+def lowerAscii (s : String) : String := String.ofList (s.toList.map Char.toLower)
+
 /-- `jwt.ParseSigned` never admits a token without an algorithm … -/
 theorem c05_gen_no_empty_alg : Gen.supported.contains "" = false := by decide
 
-/-- … nor an unsigned one, however `none` is spelled -/
-theorem c05_gen_no_none_alg :
-    Gen.supported.contains "none" = false ∧ Gen.supported.contains "None" = false ∧
-    Gen.supported.contains "NONE" = false ∧ Gen.supported.contains "nOnE" = false := by decide
+/-- … nor an unsigned one, however `none` is capitalised -/
+theorem c05_gen_no_unsigned_alg : (Gen.supported.all fun a => lowerAscii a != "none" && a != "") = true := by decide
 
 /-! ## Witnesses -/
 
 /-- the payload of the witness token -/
-def payload₀ : Val :=
-  .obj [("iss", .str "https://idp.example.com"), ("sub", .str "alice"), ("aud", .arr [.str "api"]),
-        ("scp", .arr [.str "users.*"]), ("exp", .num 1700000300 0), ("nbf", .num 1700000005 0),
-        ("user", .obj [("id", .num 4711 0), ("name", .str "Alice")])]
+def claims₀ : List (String × Val) :=
+  [("iss", .str "https://idp.example.com"), ("sub", .str "alice"), ("aud", .arr [.str "api"]),
+   ("scp", .arr [.str "users.*"]), ("exp", .num 1700000300 0), ("nbf", .num 1700000005 0),
+   ("user", .obj [("id", .num 4711 0), ("name", .str "Alice")])]
 
 /-- a token naming key `k1`, signed with key material 2 -/
 def tok₀ : Token :=
-  { alg := "ES256", kid := "k1", payload := some payload₀, sigOk := fun m => m == 2 }
+  { alg := "ES256", kid := "k1", payload := some (.obj claims₀), sigOk := fun m => m == 2 }
 
 /-- the same token without `kid` -/
 def tok₁ : Token := { tok₀ with kid := "" }
@@ -49,7 +58,7 @@ def keys₀ : List Key :=
   [{ kid := "k9", alg := "RS256", mat := 0 }, { kid := "k1", alg := "ES256", mat := 2 },
    { kid := "k7", alg := "ES256", mat := 3, cert := .untrusted }]
 
-def world₀ : World := { jwks := some keys₀ }
+def world₀ : World := { jwks := fun _ => some keys₀ }
 
 /-- mechanism level: issuer, audience, wildcard scopes, two allowed algorithms, 5 s leeway; the audience is
 overridden at rule level -/
@@ -63,19 +72,24 @@ def rule₀ : Option Expectation := some { audiences := ["api", "web"] }
 /-- 2023-11-14T22:13:20Z, in milliseconds -/
 def now₀ : Int := 1700000000000
 
+/-- the witness token with other claims -/
+def tokWith (kvs : List (String × Val)) : Token := { tok₀ with payload := some (.obj kvs) }
+
 /-! ## Exactness -/
 
-/-- **Accepted exactly when entitled.**  The authenticator yields the subject `(id, attrs)` if and only if the
-configuration is usable, the request carries a parsable token with a supported algorithm whose payload is a claims
-object, the endpoints answered, and some key `k` of the fetched key set entitles the token under the assertions in
-force (`Entitled`: it is the key the `kid` designates — uniquely — if there is a `kid`, its certificate is valid,
-its declared algorithm equals the token's `alg` and is allowed, the signature verifies with it, the issuer is
-trusted, an expected audience is present if audiences are configured, the required scopes are covered, and the
-instant lies in `[nbf − leeway, exp + leeway)` and not before `iat − leeway`), and `(id, attrs)` are the values
-found in that payload. -/
+/-- **Accepted exactly when entitled.**  The authenticator (cold cache) yields the subject `(id, attrs)` if and only
+if the configuration is usable, the request carries a parsable, canonically serialised token with a supported
+algorithm whose payload is a JSON object, the endpoints answered, and some key `k` of the key set fetched for this
+token entitles it under the assertions in force (`Entitled`, all clauses on the raw payload: the key is the one the
+`kid` designates — uniquely — if there is a `kid`, its certificate is valid, its declared algorithm equals the
+token's `alg` and is allowed, the signature verifies with it, the registered claims are well-typed, the token names a
+trusted issuer, an expected audience is present if audiences are configured, the required scopes are covered, and the
+instant lies in `[nbf − leeway, exp + leeway)` and not before `iat − leeway`); `id` is the value at the id path of
+that payload and `attrs` the object at the attributes path, numbers as doubles. -/
 theorem c05_accept_iff (cfg : Config) (rule : Option Expectation) (w : World) (p : Presented) (nowMs : Int)
     (id : String) (attrs : Val) :
-    authenticate cfg rule w p nowMs = .accepted id attrs ↔ Accepts cfg rule w p nowMs id attrs :=
+    authenticate cfg rule w p nowMs = .accepted id attrs ↔
+      ∃ attrs₀, Accepts cfg rule w p nowMs id attrs₀ ∧ attrs = attrs₀.round :=
   authenticate_accepted_iff c05_gen_no_empty_alg cfg rule w p nowMs id attrs
 
 example : authenticate cfg₀ rule₀ world₀ (.token tok₀) now₀ =
@@ -86,62 +100,60 @@ example : authenticate cfg₀ rule₀ world₀ (.token tok₁) now₀ =
 
 /-- **Soundness, in the words of the property.**  A subject is created only if there is a key in the key set
 obtained from the endpoint with which the signature verifies, whose declared algorithm is the token's `alg` and is
-in the allowed list, the issuer is trusted, an expected audience is present when audiences are configured, the
-required scopes are matched and the token is inside its validity period within the leeway. -/
+in the allowed list, the issuer named by the payload is trusted, an expected audience is present when audiences are
+configured, the required scopes are matched and the token is inside its validity period within the leeway — every
+clause read off the raw payload `kvs`. -/
 theorem c05_sound {cfg : Config} {rule : Option Expectation} {w : World} {p : Presented} {nowMs : Int}
     {id : String} {attrs : Val} (h : authenticate cfg rule w p nowMs = .accepted id attrs) :
-    ∃ tok ks md kvs c k,
-      p = .token tok ∧ w.jwks = some ks ∧ resolveMetadata cfg w = .ok md ∧
-      tok.payload.bind Val.members = some kvs ∧ decodeClaims kvs = some c ∧
-      k ∈ ks ∧ tok.sigOk k.mat = true ∧ k.alg = tok.alg ∧ k.alg ∈ (effective cfg rule md.issuer).algs ∧
-      c.iss ∈ (effective cfg rule md.issuer).issuers ∧
-      ((effective cfg rule md.issuer).audiences = [] ∨ ∃ x ∈ (effective cfg rule md.issuer).audiences, x ∈ c.aud) ∧
-      Satisfied (effective cfg rule md.issuer).scopes c.granted ∧
-      (∀ t, c.nbf = some t → t - (effective cfg rule md.issuer).leewaySec ≤ nowMs / 1000) ∧
-      (∀ t, c.exp = some t → nowMs / 1000 < t + (effective cfg rule md.issuer).leewaySec) := by
-  obtain ⟨tok, pl, kvs, md, ks, c, k, _, hp, _, hpl, hkvs, hmd, hjw, hc, e, _⟩ := (c05_accept_iff ..).mp h
-  refine ⟨tok, ks, md, kvs, c, k, hp, hjw, hmd, by simp [hpl, hkvs], hc, e.fromKeySet, e.signed.2.2, e.algAgrees,
+    ∃ tok kvs md ks k a,
+      p = .token tok ∧ tok.payload = some (.obj kvs) ∧ Spec.metadata cfg w = some md ∧
+      a = Spec.inForce cfg rule md.issuer ∧ w.jwks (Spec.endpoint cfg kvs) = some ks ∧
+      k ∈ ks ∧ tok.sigOk k.mat = true ∧ k.alg = tok.alg ∧ k.alg ∈ a.algs ∧
+      (∃ i, Spec.issuer kvs = some i ∧ i ∈ a.issuers) ∧
+      (a.audiences = [] ∨ ∃ x ∈ a.audiences, x ∈ Spec.audiences kvs) ∧
+      Satisfied a.scopes (Spec.granted kvs) ∧
+      (∀ t, Spec.date "nbf" kvs = some t → t - a.leewaySec ≤ nowMs / 1000) ∧
+      (∀ t, Spec.date "exp" kvs = some t → nowMs / 1000 < t + a.leewaySec) := by
+  obtain ⟨_, ⟨tok, kvs, md, ks, k, _, hp, _, _, hpl, hmd, hjw, e, _⟩, _⟩ := (c05_accept_iff ..).mp h
+  refine ⟨tok, kvs, md, ks, k, _, hp, hpl, hmd, rfl, hjw, e.fromKeySet, e.signed.2.2, e.algAgrees,
     e.algAllowed, e.issuerTrusted, e.audienceOk, e.scopesOk, ?_, ?_⟩
   · intro t ht; have := e.notBefore t ht; omega
   · intro t ht; have := e.notExpired t ht; omega
 
 /-! ## Every other token is rejected -/
 
-/-- **Unsigned tokens.**  A token whose header says `none` (in any spelling the generated list rules out) or no
-algorithm at all is rejected whatever the key set, the configuration and the claims are. -/
+/-- **Unsigned tokens.**  A token whose header says `none` — in any capitalisation — or names no algorithm is
+rejected whatever the key set, the configuration and the claims are. -/
 theorem c05_unsigned_rejected (cfg : Config) (rule : Option Expectation) (w : World) (tok : Token) (nowMs : Int)
-    (h : tok.alg = "none" ∨ tok.alg = "None" ∨ tok.alg = "NONE" ∨ tok.alg = "nOnE" ∨ tok.alg = "") :
+    (h : lowerAscii tok.alg = "none" ∨ tok.alg = "") :
     ∀ id attrs, authenticate cfg rule w (.token tok) nowMs ≠ .accepted id attrs := by
   intro id attrs hacc
-  obtain ⟨tok', _, _, _, _, _, _, _, hp, hsup, _⟩ := (c05_accept_iff ..).mp hacc
+  obtain ⟨_, ⟨tok', _, _, _, _, _, hp, hsup, _⟩, _⟩ := (c05_accept_iff ..).mp hacc
   cases hp
-  have hc : Gen.supported.contains tok.alg = true := by simpa using hsup
-  obtain ⟨h1, h2, h3, h4⟩ := c05_gen_no_none_alg
-  rcases h with h | h | h | h | h <;> rw [h] at hc
-  · rw [h1] at hc; cases hc
-  · rw [h2] at hc; cases hc
-  · rw [h3] at hc; cases hc
-  · rw [h4] at hc; cases hc
-  · rw [c05_gen_no_empty_alg] at hc; cases hc
+  have := List.all_eq_true.mp c05_gen_no_unsigned_alg tok.alg hsup
+  simp only [Bool.and_eq_true, bne_iff_ne, ne_eq] at this
+  rcases h with h | h
+  · exact this.1 h
+  · exact this.2 h
 
-example : ∀ id attrs, authenticate cfg₀ rule₀ world₀ (.token { tok₀ with alg := "none", sigOk := fun _ => true })
-    now₀ ≠ .accepted id attrs := c05_unsigned_rejected _ _ _ _ _ (Or.inl rfl)
+example : ∀ id attrs, authenticate cfg₀ rule₀ world₀ (.token { tok₀ with alg := "nOnE", sigOk := fun _ => true })
+    now₀ ≠ .accepted id attrs := c05_unsigned_rejected _ _ _ _ _ (Or.inl (by decide))
 
-/-- **Foreign or broken signatures.**  If the signature verifies with none of the keys of the fetched key set —
-the token was signed with another key, or header, payload or signature were modified — no subject is created. -/
+/-- **Foreign or broken signatures.**  If the signature verifies with none of the keys of the key set fetched for
+the token — it was signed with another key, or header, payload or signature were modified — no subject is created. -/
 theorem c05_foreign_signature_rejected (cfg : Config) (rule : Option Expectation) (w : World) (tok : Token)
-    (nowMs : Int) (h : ∀ ks, w.jwks = some ks → ∀ k ∈ ks, tok.sigOk k.mat = false) :
+    (nowMs : Int) (h : ∀ u ks, w.jwks u = some ks → ∀ k ∈ ks, tok.sigOk k.mat = false) :
     ∀ id attrs, authenticate cfg rule w (.token tok) nowMs ≠ .accepted id attrs := by
   intro id attrs hacc
-  obtain ⟨tok', _, _, _, ks, _, k, _, hp, _, _, _, _, hjw, _, e, _⟩ := (c05_accept_iff ..).mp hacc
+  obtain ⟨_, ⟨tok', _, _, ks, k, _, hp, _, _, _, _, hjw, e, _⟩, _⟩ := (c05_accept_iff ..).mp hacc
   cases hp
-  have := h ks hjw k e.fromKeySet
+  have := h _ ks hjw k e.fromKeySet
   rw [e.signed.2.2] at this; cases this
 
 example : ∀ id attrs, authenticate cfg₀ rule₀ world₀ (.token { tok₀ with sigOk := fun m => m == 5 }) now₀ ≠
     .accepted id attrs :=
   c05_foreign_signature_rejected _ _ _ _ _ (by
-    intro ks h k hk
+    intro u ks h k hk
     have : ks = keys₀ := by simpa [world₀] using h.symm
     subst this
     simp only [keys₀, List.mem_cons, List.not_mem_nil, or_false] at hk
@@ -149,83 +161,150 @@ example : ∀ id attrs, authenticate cfg₀ rule₀ world₀ (.token { tok₀ wi
 
 /-- **Algorithm confusion.**  A token is only ever verified under the algorithm the key itself declares: if no key
 of the set declares the token's `alg` — e.g. an `HS256` token keyed by the public material of an `RS256` / `ES256`
-key, or an `RS256` token for a key declared `PS256` — it is rejected, even if `sigOk` holds and whatever the
-allowed algorithms are. -/
+key, an `RS256` token for a key declared `PS256`, or a key that declares no algorithm at all — it is rejected, even
+if `sigOk` holds and whatever the allowed algorithms are. -/
 theorem c05_alg_confusion_rejected (cfg : Config) (rule : Option Expectation) (w : World) (tok : Token)
-    (nowMs : Int) (h : ∀ ks, w.jwks = some ks → ∀ k ∈ ks, k.alg ≠ tok.alg) :
+    (nowMs : Int) (h : ∀ u ks, w.jwks u = some ks → ∀ k ∈ ks, k.alg ≠ tok.alg) :
     ∀ id attrs, authenticate cfg rule w (.token tok) nowMs ≠ .accepted id attrs := by
   intro id attrs hacc
-  obtain ⟨tok', _, _, _, ks, _, k, _, hp, _, _, _, _, hjw, _, e, _⟩ := (c05_accept_iff ..).mp hacc
+  obtain ⟨_, ⟨tok', _, _, ks, k, _, hp, _, _, _, _, hjw, e, _⟩, _⟩ := (c05_accept_iff ..).mp hacc
   cases hp
-  exact h ks hjw k e.fromKeySet e.algAgrees
+  exact h _ ks hjw k e.fromKeySet e.algAgrees
 
 example : ∀ id attrs,
     authenticate { cfg₀ with assertions := { cfg₀.assertions with algs := ["HS256", "ES256", "RS256"] } } rule₀ world₀
       (.token { tok₀ with alg := "HS256", kid := "", sigOk := fun _ => true }) now₀ ≠ .accepted id attrs :=
   c05_alg_confusion_rejected _ _ _ _ _ (by
-    intro ks h k hk
+    intro u ks h k hk
     have : ks = keys₀ := by simpa [world₀] using h.symm
     subst this
     simp only [keys₀, List.mem_cons, List.not_mem_nil, or_false] at hk
     rcases hk with rfl | rfl | rfl <;> decide)
 
-/-- **Assertions.**  A token whose verified claims violate one of the assertions in force is rejected: issuer not
-trusted; audiences configured and none of them present; a required scope not covered; expired (`exp ≤ now −
-leeway`, whatever the value of `exp`, also zero or negative); not yet valid (`nbf > now + leeway`); issued in the
-future. -/
+/-- **Other spellings of a token.**  A serialisation that is not the canonical base64url spelling of its octets
+(line breaks, stray trailing bits) is rejected, even if the octets are those of a valid token. -/
+theorem c05_noncanonical_rejected (cfg : Config) (rule : Option Expectation) (w : World) (tok : Token) (nowMs : Int)
+    (h : tok.canonical = false) : ∀ id attrs, authenticate cfg rule w (.token tok) nowMs ≠ .accepted id attrs := by
+  intro id attrs hacc
+  obtain ⟨_, ⟨tok', _, _, _, _, _, hp, _, hcan, _⟩, _⟩ := (c05_accept_iff ..).mp hacc
+  cases hp
+  rw [h] at hcan; cases hcan
+
+example : authenticate cfg₀ rule₀ world₀ (.token { tok₀ with canonical := false }) now₀ = .rejected .malformed := by
+  rfl
+
+/-- **Assertions, on the raw payload.**  A token whose payload `kvs` violates one of the assertions in force is
+rejected: it names no issuer (absent, `null`, empty, not a string) or an untrusted one; audiences are configured
+and none of them is present; a required scope is not covered; a registered claim is ill-typed. -/
 theorem c05_unasserted_rejected (cfg : Config) (rule : Option Expectation) (w : World) (tok : Token) (nowMs : Int)
-    (pl : Val) (kvs : List (String × Val)) (c : Claims) (md : Metadata)
-    (hpl : tok.payload = some pl) (hkvs : pl.members = some kvs) (hc : decodeClaims kvs = some c)
-    (hmd : resolveMetadata cfg w = .ok md)
-    (h : c.iss ∉ (effective cfg rule md.issuer).issuers ∨
-         ((effective cfg rule md.issuer).audiences ≠ [] ∧ ∀ x ∈ (effective cfg rule md.issuer).audiences, x ∉ c.aud) ∨
-         ¬ Satisfied (effective cfg rule md.issuer).scopes c.granted ∨
-         (∃ t, c.exp = some t ∧ t ≤ nowMs / 1000 - (effective cfg rule md.issuer).leewaySec) ∨
-         (∃ t, c.nbf = some t ∧ nowMs / 1000 + (effective cfg rule md.issuer).leewaySec < t) ∨
-         (∃ t, c.iat = some t ∧ nowMs + (effective cfg rule md.issuer).leewayMs < t * 1000)) :
+    (kvs : List (String × Val)) (md : Metadata)
+    (hpl : tok.payload = some (.obj kvs)) (hmd : Spec.metadata cfg w = some md)
+    (h : Spec.wellTyped kvs = false ∨
+         (∀ i, Spec.issuer kvs = some i → i ∉ (Spec.inForce cfg rule md.issuer).issuers) ∨
+         ((Spec.inForce cfg rule md.issuer).audiences ≠ [] ∧
+            ∀ x ∈ (Spec.inForce cfg rule md.issuer).audiences, x ∉ Spec.audiences kvs) ∨
+         ¬ Satisfied (Spec.inForce cfg rule md.issuer).scopes (Spec.granted kvs)) :
     ∀ id attrs, authenticate cfg rule w (.token tok) nowMs ≠ .accepted id attrs := by
   intro id attrs hacc
-  obtain ⟨tok', pl', kvs', md', ks, c', k, _, hp, _, hpl', hkvs', hmd', _, hc', e, _⟩ := (c05_accept_iff ..).mp hacc
+  obtain ⟨_, ⟨tok', kvs', md', ks, k, _, hp, _, _, hpl', hmd', _, e, _⟩, _⟩ := (c05_accept_iff ..).mp hacc
   cases hp
   rw [hpl] at hpl'; cases hpl'
-  rw [hkvs] at hkvs'; cases hkvs'
   rw [hmd] at hmd'; cases hmd'
-  rw [hc] at hc'; cases hc'
-  rcases h with h | ⟨hne, h⟩ | h | ⟨t, ht, h⟩ | ⟨t, ht, h⟩ | ⟨t, ht, h⟩
-  · exact h e.issuerTrusted
+  rcases h with h | h | ⟨hne, h⟩ | h
+  · rw [e.wellTyped] at h; cases h
+  · obtain ⟨i, hi, hin⟩ := e.issuerTrusted
+    exact h i hi hin
   · rcases e.audienceOk with h0 | ⟨x, hx, hx'⟩
     · exact hne h0
     · exact h x hx hx'
   · exact h e.scopesOk
-  · have := e.notExpired t ht; omega
-  · have := e.notBefore t ht; omega
-  · have := e.issued t ht; omega
 
-/-- the witness token one second after `exp + leeway`, and with `exp = 0` -/
+/-- **Validity period, on the raw payload.**  Whatever number the claim carries — zero, negative, fractional,
+beyond `2^63`, `1e308`: a token whose `exp` member denotes an instant at or before `now − leeway` is rejected; so is
+one whose `nbf` lies after `now + leeway`, and one issued (`iat`) after `now + leeway`. -/
+theorem c05_outside_validity_rejected (cfg : Config) (rule : Option Expectation) (w : World) (tok : Token)
+    (nowMs : Int) (kvs : List (String × Val)) (md : Metadata) (m : Int) (e : Nat)
+    (hpl : tok.payload = some (.obj kvs)) (hmd : Spec.metadata cfg w = some md)
+    (h : (lookup "exp" kvs = some (.num m e) ∧
+            truncNum m e ≤ nowMs / 1000 - (Spec.inForce cfg rule md.issuer).leewaySec) ∨
+         (lookup "nbf" kvs = some (.num m e) ∧
+            nowMs / 1000 + (Spec.inForce cfg rule md.issuer).leewaySec < truncNum m e) ∨
+         (lookup "iat" kvs = some (.num m e) ∧
+            nowMs + (Spec.inForce cfg rule md.issuer).leewayMs < truncNum m e * 1000)) :
+    ∀ id attrs, authenticate cfg rule w (.token tok) nowMs ≠ .accepted id attrs := by
+  intro id attrs hacc
+  obtain ⟨_, ⟨tok', kvs', md', ks, k, _, hp, _, _, hpl', hmd', _, en, _⟩, _⟩ := (c05_accept_iff ..).mp hacc
+  cases hp
+  rw [hpl] at hpl'; cases hpl'
+  rw [hmd] at hmd'; cases hmd'
+  have hd : ∀ key, lookup key kvs = some (.num m e) → Spec.date key kvs = some (truncNum m e) := by
+    intro key hk
+    simp only [Spec.date, member_eq_lookup, hk]
+    rfl
+  rcases h with ⟨hk, h⟩ | ⟨hk, h⟩ | ⟨hk, h⟩
+  · have := en.notExpired _ (hd _ hk); omega
+  · have := en.notBefore _ (hd _ hk); omega
+  · have := en.issued _ (hd _ hk); omega
+
+/-- **Dates no clock can reach.**  A numeric `exp`, `nbf` or `iat` outside the years 1–9999 (at or before the zero
+time, `≥ 2^63`, `1e30`, …) makes the token ill-typed: rejected, not reinterpreted. -/
+theorem c05_date_out_of_range_rejected (cfg : Config) (rule : Option Expectation) (w : World) (tok : Token)
+    (nowMs : Int) (kvs : List (String × Val)) (key : String) (m : Int) (e : Nat)
+    (hpl : tok.payload = some (.obj kvs)) (hkey : key = "exp" ∨ key = "nbf" ∨ key = "iat")
+    (hk : lookup key kvs = some (.num m e)) (h : truncNum m e ≤ -62135596800 ∨ 253402300799 < truncNum m e) :
+    ∀ id attrs, authenticate cfg rule w (.token tok) nowMs ≠ .accepted id attrs := by
+  intro id attrs hacc
+  obtain ⟨_, ⟨tok', kvs', _, _, _, _, hp, _, _, hpl', _, _, en, _⟩, _⟩ := (c05_accept_iff ..).mp hacc
+  cases hp
+  rw [hpl] at hpl'; cases hpl'
+  have hw := en.wellTyped
+  have hbad : Spec.dateOk (Spec.member key kvs) = false := by
+    rw [member_eq_lookup, hk]
+    show (decide (-62135596800 < Spec.seconds m e) && decide (Spec.seconds m e ≤ 253402300799)) = false
+    have hs : Spec.seconds m e = truncNum m e := rfl
+    rw [hs]
+    generalize truncNum m e = t at h
+    rw [Bool.eq_false_iff]
+    simp only [ne_eq, Bool.and_eq_true, decide_eq_true_eq]
+    omega
+  simp only [Spec.wellTyped, Bool.and_eq_true] at hw
+  rcases hkey with rfl | rfl | rfl
+  · rw [hw.1.1.2] at hbad; cases hbad
+  · rw [hw.1.2] at hbad; cases hbad
+  · rw [hw.2] at hbad; cases hbad
+
+/-- one second around `exp + leeway`, before `nbf − leeway`, the mechanism-level audience, `exp = 0`, `exp` at the
+zero time of Go, `nbf = 2^63`, `iat = 1e30`, no issuer -/
 example : authenticate cfg₀ rule₀ world₀ (.token tok₀) (now₀ + 305000) = .rejected .expired ∧
     authenticate cfg₀ rule₀ world₀ (.token tok₀) (now₀ + 304999) =
       .accepted "4711" (.obj [("id", .num 4711 0), ("name", .str "Alice")]) ∧
     authenticate cfg₀ rule₀ world₀ (.token tok₀) (now₀ - 1) = .rejected .notYetValid ∧
     authenticate cfg₀ none world₀ (.token tok₀) now₀ = .rejected .audience ∧
-    authenticate cfg₀ rule₀ world₀
-      (.token { tok₀ with payload := some (.obj [("iss", .str "https://idp.example.com"), ("aud", .str "api"),
-        ("scope", .str "users.read"), ("exp", .num 0 0)]) }) now₀
-      = .rejected .expired := by
-  refine ⟨by rfl, by rfl, by rfl, by rfl, by rfl⟩
+    authenticate cfg₀ rule₀ world₀ (.token (tokWith (claims₀ ++ [("x", .null)]))) now₀ =
+      .accepted "4711" (.obj [("id", .num 4711 0), ("name", .str "Alice")]) ∧
+    authenticate cfg₀ rule₀ world₀ (.token (tokWith (("exp", .num 0 0) :: claims₀))) now₀ = .rejected .expired ∧
+    authenticate cfg₀ rule₀ world₀ (.token (tokWith (("exp", .num (-62135596800) 0) :: claims₀))) now₀
+      = .rejected .claims ∧
+    authenticate cfg₀ rule₀ world₀ (.token (tokWith (("nbf", .num 9223372036854775808 0) :: claims₀))) now₀
+      = .rejected .claims ∧
+    authenticate cfg₀ rule₀ world₀ (.token (tokWith (("iat", .num (10 ^ 30) 0) :: claims₀))) now₀
+      = .rejected .claims ∧
+    authenticate cfg₀ rule₀ world₀ (.token (tokWith (claims₀.drop 1))) now₀ = .rejected .issuer := by
+  refine ⟨by rfl, by rfl, by rfl, by rfl, by rfl, by rfl, by rfl, by rfl, by rfl, by rfl⟩
 
 /-- **Once expired, never accepted again.**  If at some instant the token's `exp` lies at or before `now − leeway`,
 the same request is rejected at every later instant (same configuration, endpoints and token). -/
 theorem c05_expired_forever (cfg : Config) (rule : Option Expectation) (w : World) (tok : Token) (nowMs nowMs' : Int)
-    (pl : Val) (kvs : List (String × Val)) (c : Claims) (md : Metadata) (t : Int)
-    (hpl : tok.payload = some pl) (hkvs : pl.members = some kvs) (hc : decodeClaims kvs = some c)
-    (hmd : resolveMetadata cfg w = .ok md) (hexp : c.exp = some t)
-    (h : t ≤ nowMs / 1000 - (effective cfg rule md.issuer).leewaySec) (hlater : nowMs ≤ nowMs') :
+    (kvs : List (String × Val)) (md : Metadata) (m : Int) (e : Nat)
+    (hpl : tok.payload = some (.obj kvs)) (hmd : Spec.metadata cfg w = some md)
+    (hexp : lookup "exp" kvs = some (.num m e))
+    (h : truncNum m e ≤ nowMs / 1000 - (Spec.inForce cfg rule md.issuer).leewaySec) (hlater : nowMs ≤ nowMs') :
     ∀ id attrs, authenticate cfg rule w (.token tok) nowMs' ≠ .accepted id attrs :=
-  c05_unasserted_rejected cfg rule w tok nowMs' pl kvs c md hpl hkvs hc hmd
-    (Or.inr (Or.inr (Or.inr (Or.inl ⟨t, hexp, by omega⟩))))
+  c05_outside_validity_rejected cfg rule w tok nowMs' kvs md m e hpl hmd (Or.inl ⟨hexp, by omega⟩)
 
-example : decodeClaims [("exp", .num 1700000300 0)] = some { exp := some 1700000300 } ∧
-    (1700000300 : Int) ≤ (now₀ + 305000) / 1000 - (effective cfg₀ rule₀ "").leewaySec := by decide
+example : lookup "exp" claims₀ = some (.num 1700000300 0) ∧
+    truncNum 1700000300 0 ≤ (now₀ + 305000) / 1000 - (Spec.inForce cfg₀ rule₀ "").leewaySec :=
+  ⟨by rfl, by decide⟩
 
 /-! ## Key selection -/
 
@@ -235,14 +314,14 @@ verify lead to rejection even if another key of the set would verify the token. 
 theorem c05_kid_designates {cfg : Config} {rule : Option Expectation} {w : World} {tok : Token} {nowMs : Int}
     {id : String} {attrs : Val} (hkid : tok.kid ≠ "")
     (h : authenticate cfg rule w (.token tok) nowMs = .accepted id attrs) :
-    ∃ ks k, w.jwks = some ks ∧ ks.filter (fun k' => k'.kid = tok.kid) = [k] ∧
+    ∃ u ks k, w.jwks u = some ks ∧ ks.filter (fun k' => k'.kid = tok.kid) = [k] ∧
       tok.sigOk k.mat = true ∧ k.alg = tok.alg := by
-  obtain ⟨tok', _, _, _, ks, _, k, _, hp, _, _, _, _, hjw, _, e, _⟩ := (c05_accept_iff ..).mp h
+  obtain ⟨_, ⟨tok', _, _, ks, k, _, hp, _, _, _, _, hjw, e, _⟩, _⟩ := (c05_accept_iff ..).mp h
   cases hp
-  exact ⟨ks, k, hjw, e.designated hkid, e.signed.2.2, e.algAgrees⟩
+  exact ⟨_, ks, k, hjw, e.designated hkid, e.signed.2.2, e.algAgrees⟩
 
 /-- two keys named `k1`: rejected although the first of them verifies the token -/
-example : authenticate cfg₀ rule₀ { jwks := some (keys₀ ++ [{ kid := "k1", alg := "ES256", mat := 3 }]) }
+example : authenticate cfg₀ rule₀ { jwks := fun _ => some (keys₀ ++ [{ kid := "k1", alg := "ES256", mat := 3 }]) }
     (.token tok₀) now₀ = .rejected .ambiguousKey := by rfl
 
 /-- **Acceptance is owed to a single key.**  Whenever a token is accepted against a key set, one key of that set
@@ -250,12 +329,12 @@ alone — served as the whole key set — leads to the same subject: no combinat
 acceptable that no single key of the endpoint justifies. -/
 theorem c05_single_key_suffices {cfg : Config} {rule : Option Expectation} {w : World} {p : Presented}
     {nowMs : Int} {id : String} {attrs : Val} (h : authenticate cfg rule w p nowMs = .accepted id attrs) :
-    ∃ ks k, w.jwks = some ks ∧ k ∈ ks ∧
-      authenticate cfg rule { w with jwks := some [k] } p nowMs = .accepted id attrs := by
-  obtain ⟨tok, pl, kvs, md, ks, c, k, hcfg, hp, hsup, hpl, hkvs, hmd, hjw, hc, e, hs⟩ := (c05_accept_iff ..).mp h
-  refine ⟨ks, k, hjw, e.fromKeySet, (c05_accept_iff ..).mpr
-    ⟨tok, pl, kvs, md, [k], c, k, hcfg, hp, hsup, hpl, hkvs, ?_, rfl, hc, ?_, hs⟩⟩
-  · simpa [resolveMetadata] using hmd
+    ∃ u ks k, w.jwks u = some ks ∧ k ∈ ks ∧
+      authenticate cfg rule { w with jwks := fun _ => some [k] } p nowMs = .accepted id attrs := by
+  obtain ⟨a₀, ⟨tok, kvs, md, ks, k, hcfg, hp, hsup, hcan, hpl, hmd, hjw, e, hs⟩, ha⟩ := (c05_accept_iff ..).mp h
+  refine ⟨_, ks, k, hjw, e.fromKeySet, (c05_accept_iff ..).mpr
+    ⟨a₀, ⟨tok, kvs, md, [k], k, hcfg, hp, hsup, hcan, hpl, ?_, rfl, ?_, hs⟩, ha⟩⟩
+  · simpa [Spec.metadata] using hmd
   · refine { e with fromKeySet := List.mem_singleton.mpr rfl, designated := ?_ }
     intro hk
     have hmem : k ∈ ks.filter (fun k' => k'.kid = tok.kid) := by rw [e.designated hk]; exact List.mem_singleton.mpr rfl
@@ -271,87 +350,147 @@ theorem c05_merge_assoc (a b c : Expectation) : (a.merge b).merge c = a.merge (b
   simp only [Expectation.merge, Expectation.mk.injEq]
   refine ⟨?_, ?_, ?_, ?_, ?_⟩ <;> split <;> simp_all
 
-/-- **Configured expectations take precedence over metadata, rule level over mechanism level.**  Each assertion in
-force is the rule-level value if one is given there, otherwise the mechanism-level value if given, otherwise: the
-issuer named by the server metadata / no audience check / no scope requirement / the default algorithms / 10 s. -/
-theorem c05_effective_precedence (cfg : Config) (r : Expectation) (metaIssuer : String) :
-    let e := effective cfg (some r) metaIssuer
-    e.issuers = (if r.issuers ≠ [] then r.issuers else if cfg.assertions.issuers ≠ [] then cfg.assertions.issuers
-                 else [metaIssuer]) ∧
-    e.audiences = (if r.audiences ≠ [] then r.audiences else cfg.assertions.audiences) ∧
-    e.scopes = (if r.scopes.isSome then r.scopes else cfg.assertions.scopes) ∧
-    e.algs = (if r.algs ≠ [] then r.algs else if cfg.assertions.algs ≠ [] then cfg.assertions.algs
-              else Gen.defaultAllowed) ∧
-    e.leewayMs = (if r.leeway ≠ 0 then r.leeway else if cfg.assertions.leeway ≠ 0 then cfg.assertions.leeway
-                  else 10000) := by
-  simp only [effective, Expectation.merge, Expectation.leewayMs]
-  refine ⟨?_, ?_, ?_, ?_, ?_⟩
-  · by_cases h1 : r.issuers = [] <;> by_cases h2 : cfg.assertions.issuers = [] <;> simp [h1, h2]
-  · split <;> simp_all
-  · split <;> simp_all
-  · have hd : Gen.defaultAllowed ≠ [] := by decide
-    by_cases h1 : r.algs = [] <;> by_cases h2 : cfg.assertions.algs = [] <;> simp [h1, h2, hd]
-  · by_cases h1 : r.leeway = 0 <;> by_cases h2 : cfg.assertions.leeway = 0 <;> simp [h1, h2]
+/-- **Configured expectations take precedence over metadata, rule level over mechanism level.**  The chain of
+`Merge` calls computes, per assertion, the value of the first level that sets one (`Spec.inForce`): rule level, else
+mechanism level, else the issuer named by the server metadata / no audience check / no scope requirement / the
+default algorithms / 10 s. -/
+theorem c05_effective_is_first_set (cfg : Config) (rule : Option Expectation) (metaIssuer : String) :
+    effective cfg rule metaIssuer = Spec.inForce cfg rule metaIssuer :=
+  effective_eq_inForce cfg rule metaIssuer
 
-/-- without a rule-level override the mechanism-level values are in force; trusted issuers configured at the
-mechanism are never widened by what the metadata document says -/
+/-- trusted issuers configured at the mechanism are never widened by what the metadata document says -/
 theorem c05_configured_issuers_win (cfg : Config) (metaIssuer : String) (h : cfg.assertions.issuers ≠ []) :
-    (effective cfg none metaIssuer).issuers = cfg.assertions.issuers := by
+    (Spec.inForce cfg none metaIssuer).issuers = cfg.assertions.issuers := by
+  rw [← effective_eq_inForce]
   simp [effective, Expectation.merge, h]
 
-example : (effective cfg₀ rule₀ "https://evil.example").issuers = ["https://idp.example.com"] ∧
-    (effective cfg₀ rule₀ "").audiences = ["api", "web"] ∧ (effective cfg₀ none "").audiences = ["nobody"] ∧
-    (effective cfg₀ rule₀ "").algs = ["ES256", "PS256"] ∧ (effective cfg₀ rule₀ "").leewaySec = 5 ∧
-    (effective { cfg₀ with assertions := {} } none "https://meta.example").issuers = ["https://meta.example"] ∧
-    (effective { cfg₀ with assertions := {} } none "").algs = Gen.defaultAllowed := by
+example : (Spec.inForce cfg₀ rule₀ "https://evil.example").issuers = ["https://idp.example.com"] ∧
+    (Spec.inForce cfg₀ rule₀ "").audiences = ["api", "web"] ∧ (Spec.inForce cfg₀ none "").audiences = ["nobody"] ∧
+    (Spec.inForce cfg₀ rule₀ "").algs = ["ES256", "PS256"] ∧ (Spec.inForce cfg₀ rule₀ "").leewaySec = 5 ∧
+    (Spec.inForce { cfg₀ with assertions := {} } none "https://meta.example").issuers = ["https://meta.example"] ∧
+    (Spec.inForce { cfg₀ with assertions := {} } none "").algs = Gen.defaultAllowed := by
   decide
 
 /-! ## Subject -/
 
-/-- **The subject consists of verified claims only.**  Id and attributes of an accepted request are values of the
-token's payload — the payload whose signature was verified — selected by the configured paths; they do not
-depend on the header, the key set, the endpoints, the assertions or the instant: any two accepted requests with
-the same payload and subject configuration yield the same subject. -/
+/-- **The subject consists of verified claims only.**  The id of an accepted request is the textual form of the value
+at the id path of the token's payload — the payload whose signature was verified — and the attributes are the object
+at the attributes path with its numbers as doubles; they do not depend on the header, the key set, the endpoints, the
+assertions or the instant: any two accepted requests with the same payload and subject configuration yield the same
+subject. -/
 theorem c05_subject_from_claims {cfg cfg' : Config} {rule rule' : Option Expectation} {w w' : World}
     {tok tok' : Token} {nowMs nowMs' : Int} {id id' : String} {attrs attrs' : Val}
     (h : authenticate cfg rule w (.token tok) nowMs = .accepted id attrs)
     (h' : authenticate cfg' rule' w' (.token tok') nowMs' = .accepted id' attrs')
     (hp : tok.payload = tok'.payload) (hs : cfg.subject = cfg'.subject) :
-    (∃ pl, tok.payload = some pl ∧ SubjectOf cfg.subject pl id attrs) ∧ id = id' ∧ attrs = attrs' := by
-  obtain ⟨t, pl, _, _, _, _, _, _, e1, _, hpl, _, _, _, _, _, hs1⟩ := (c05_accept_iff ..).mp h
-  obtain ⟨t', pl', _, _, _, _, _, _, e2, _, hpl', _, _, _, _, _, hs2⟩ := (c05_accept_iff ..).mp h'
+    (∃ pl attrs₀, tok.payload = some pl ∧ SubjectOf cfg.subject pl id attrs₀ ∧ attrs = attrs₀.round) ∧
+      id = id' ∧ attrs = attrs' := by
+  obtain ⟨a₁, ⟨t, kvs, _, _, _, _, e1, _, _, hpl, _, _, _, hs1⟩, rfl⟩ := (c05_accept_iff ..).mp h
+  obtain ⟨a₂, ⟨t', kvs', _, _, _, _, e2, _, _, hpl', _, _, _, hs2⟩, rfl⟩ := (c05_accept_iff ..).mp h'
   cases e1; cases e2
   rw [← hp, hpl] at hpl'; cases hpl'
   rw [← hs] at hs2
-  refine ⟨⟨pl, hpl, hs1⟩, ?_⟩
-  obtain ⟨v, hv, hid, _, kvs, rfl, hsrc⟩ := hs1
-  obtain ⟨v', hv', hid', _, kvs', rfl, hsrc'⟩ := hs2
+  refine ⟨⟨_, a₁, hpl, hs1, rfl⟩, ?_⟩
+  obtain ⟨v, hv, hid, _, o, rfl, hsrc⟩ := hs1
+  obtain ⟨v', hv', hid', _, o', rfl, hsrc'⟩ := hs2
   rw [hv] at hv'; cases hv'
   rw [hid] at hid'; cases hid'
   rw [hsrc] at hsrc'; cases hsrc'
   exact ⟨rfl, rfl⟩
 
+/-- **Attributes are exactly the claims — partial.**  For payloads all of whose integral numbers fit into a double
+(`|n| ≤ 2^53`) the attributes of an accepted request are the object of the payload itself.  (Full statement: for
+all payloads; it fails, see the witness below — known finding `C05-attrs-float64`.) -/
+theorem c05_attrs_exact_partial {cfg : Config} {rule : Option Expectation} {w : World} {tok : Token} {nowMs : Int}
+    {id : String} {attrs : Val} (h : authenticate cfg rule w (.token tok) nowMs = .accepted id attrs)
+    (hsafe : ∀ pl, tok.payload = some pl → pl.floatSafe = true) :
+    ∃ pl, tok.payload = some pl ∧ SubjectOf cfg.subject pl id attrs := by
+  obtain ⟨a₀, ⟨t, kvs, _, _, _, _, e1, _, _, hpl, _, _, _, hs⟩, rfl⟩ := (c05_accept_iff ..).mp h
+  cases e1
+  refine ⟨_, hpl, ?_⟩
+  have hsf := hsafe _ hpl
+  obtain ⟨v, hv, hid, hne, o, rfl, hsrc⟩ := hs
+  have : (Val.obj o).floatSafe = true := by
+    -- the attributes object is part of the payload or the payload itself
+    cases hap : cfg.subject.attrsPath with
+    | none =>
+      simp only [attrsSource, hap, Option.some.injEq] at hsrc
+      rw [← hsrc]; exact hsf
+    | some path =>
+      simp only [attrsSource, hap] at hsrc
+      exact get_floatSafe _ _ _ hsf hsrc
+  rw [Val.round_of_floatSafe _ this]
+  exact ⟨v, hv, hid, hne, o, rfl, hsrc⟩
+
+/-- the negation of the full statement at a witness: a verified claim `9007199254740993` arrives in the attributes
+as `9007199254740992` (while the id keeps its digits) -/
+theorem c05_attrs_rounded_witness :
+    authenticate cfg₀ rule₀ world₀
+      (.token (tokWith (claims₀.dropLast ++ [("user", .obj [("id", .num 9007199254740993 0)])]))) now₀ =
+      .accepted "9007199254740993" (.obj [("id", .num 9007199254740992 0)]) := by rfl
+
 /-! ## Scope matching strategies -/
 
 /-- **The three matching strategies decide the relations of the specification**: exact = equality; hierarchic = the
 granted scope equals the required one or is a proper dot-prefix of it; wildcard = part-wise agreement with `*` for
-any non-empty part, a shorter granted scope having to end in `*`. -/
+any non-empty part, a shorter granted scope having to end in `*`.  Both the model's transcription of the Go loops and
+the executable specification's own functions decide them. -/
 theorem c05_scope_strategies (st : Strategy) (granted required : String) :
-    covers1 st granted required = true ↔ Covers st granted required := covers1_iff st granted required
+    (covers1 st granted required = true ↔ Covers st granted required) ∧
+    (Spec.covers st granted required = true ↔ Covers st granted required) :=
+  ⟨covers1_iff st granted required, spec_covers_iff st granted required⟩
 
 example : Covers .hierarchic "users" "users.read.all" ∧ ¬ Covers .hierarchic "users.read" "users" ∧
-    ¬ Covers .hierarchic "user" "users.read" ∧ Covers .wildcard "users.*" "users.read.all" ∧
+    ¬ Covers .hierarchic "user" "users.read" ∧ ¬ Covers .hierarchic "" "users" ∧
+    Covers .wildcard "users.*" "users.read.all" ∧
     ¬ Covers .wildcard "users.*" "users" ∧ ¬ Covers .wildcard "*" "" ∧ Covers .wildcard "a.*.c" "a.b.c" ∧
     ¬ Covers .exact "users" "users.read" := by
-  simp only [← c05_scope_strategies]
+  simp only [← (c05_scope_strategies _ _ _).1]
   decide
 
 /-! ## The oracle of the correspondence check -/
 
-/-- **The executable specification is the model's verdict.**  `Spec.authenticate` — one conjunction of all clauses
-over the candidate keys instead of the ladder — is run next to the model on every case of the check. -/
+/-- **The executable specification is the model's verdict** (attribute numbers as doubles).  `Spec.authenticate`
+— written over the raw payload with the specification's own readers, precedence rule and scope functions, one
+conjunction of all clauses over the candidate keys instead of the ladder — is run next to the model on every case. -/
 theorem c05_spec_oracle (cfg : Config) (rule : Option Expectation) (w : World) (p : Presented) (nowMs : Int) :
-    Spec.authenticate cfg rule w p nowMs = (authenticate cfg rule w p nowMs).verdict :=
+    (authenticate cfg rule w p nowMs).verdict = (Spec.authenticate cfg rule w p nowMs).rounded :=
   spec_authenticate_eq c05_gen_no_empty_alg cfg rule w p nowMs
+
+/-! ## The JWK cache -/
+
+/-- **A cold cache changes nothing.** -/
+theorem c05_first_request (cfg : Config) (rule : Option Expectation) (w : World) (p : Presented) (nowMs : Int) :
+    (step cfg rule w [] p nowMs).1 = authenticate cfg rule w p nowMs := step_nil cfg rule w p nowMs
+
+/-- **Every request of a history is decided by a key set the endpoint really served.**  In a sequence of requests
+starting with an empty cache — key sets rotating, endpoints failing, any mix of tokens — the outcome of request `i`
+is the outcome of the cold-cache authenticator against the metadata of that moment and the key-set endpoint as it
+answered at moment `i` or at an earlier moment `j ≤ i`: a key served from the cache was the unique, certificate-valid
+key of that name in a key set fetched from the very url the current token renders to, so all theorems above apply
+with that key set.  In particular a token is never verified with a key of another (e.g. another issuer's) url. -/
+theorem c05_history_sound (cfg : Config) (rule : Option Expectation) (reqs : List (World × Presented × Int))
+    (i : Nat) (hi : i < reqs.length) :
+    ∃ w' ∈ (reqs.take (i + 1)).map (·.1),
+      (run cfg rule reqs [])[i]? =
+        some (authenticate cfg rule { metadata := reqs[i].1.metadata, jwks := w'.jwks } reqs[i].2.1 reqs[i].2.2) := by
+  obtain ⟨w', hw', h⟩ := run_origin cfg rule reqs [] [] (prov_nil _ _) i hi
+  exact ⟨w', by simpa using hw', h⟩
+
+/-- one key set per issuer: the url of the key-set endpoint is a template -/
+def cfgT : Config :=
+  { cfg₀ with
+    templated := true
+    assertions := { cfg₀.assertions with issuers := ["https://idp.example.com", "B"], audiences := [] } }
+
+/-- issuer `B` publishes another key under the same `kid` -/
+def worldT : World :=
+  { jwks := fun u => if u = "B" then some [{ kid := "k1", alg := "ES256", mat := 3 }] else some keys₀ }
+
+/-- issuer B's token signed with issuer A's key, same `kid`, after A's key was cached: rejected, because the cache
+is indexed by what the templated url renders to -/
+example :
+    run cfgT none [(worldT, .token tok₀, now₀), (worldT, .token (tokWith (("iss", .str "B") :: claims₀)), now₀)] [] =
+      [.accepted "4711" (.obj [("id", .num 4711 0), ("name", .str "Alice")]), .rejected .signature] := by rfl
 
 end Heimdall.Props.C05
